@@ -46,6 +46,9 @@ def run(ctx):
                     data = bytes.fromhex(o["pyc"])
                     hl = 16 if v >= (3, 7) else 12 if v >= (3, 3) else 8
                     items.append(("prog:%d.%d:%s" % (v[0], v[1], name), o["magic"], data[hl:], v))
+                    nf = bytes.fromhex(o.get("payload_unflagged", ""))
+                    if nf and nf != data[hl:]:
+                        items.append(("prog-unflagged:%d.%d:%s" % (v[0], v[1], name), o["magic"], nf, v))
         for o in oracles.values():
             o.close()
         files = corpus_files()
@@ -69,9 +72,18 @@ def run(ctx):
                 magic, hl = 3187, 8
             items.append(("corpus:" + os.path.relpath(f, core.REPO), magic, data[hl:], ver))
         outs = drv.ask(["x.unmarshal %d 400 %s" % (m, p.hex() or "-") for _, m, p, _ in items])
+        trees = {}
         for (name, magic, payload, ver), mo in zip(items, outs):
             r = w.r("unmarshal", magic=magic, hex=payload.hex())
             rep.count(1, name)
+            if "tree" in r:
+                trees[name] = mcanon.render(r["tree"])
+                base = trees.get(name.replace("prog-unflagged:", "prog:"))
+                if name.startswith("prog-unflagged:") and base is not None and base != trees[name]:
+                    i = next((j for j in range(min(len(base), len(trees[name]))) if base[j] != trees[name][j]), 0)
+                    rep.violation("unflagged:" + name, "the same program written by marshal.dumps(compile(...)) (top-level code object without FLAG_REF) "
+                                  "loads to a different code object than its .pyc: ..%s.. vs ..%s.." % (trees[name][max(0, i - 60):i + 60], base[max(0, i - 60):i + 60]),
+                                  {"input": name, "magic": magic, "payload": payload.hex()[:20000]})
             inp = {"input": name, "magic": magic, "payload_len": len(payload)}
             if "tree" not in r:
                 rep.violation("load:" + name, "load_code raised %s (%s) on %s" % (r.get("err"), r.get("msg"), inp), dict(inp, payload=payload.hex()[:20000]))
